@@ -433,6 +433,21 @@ def gen_case(rng, ideal):
                 do(['send', rid, h, [rng.randrange(256) for _ in range(size)], e, rng.choice(tmos)])
                 sent.append((h, e))
                 rid += 1
+            elif x < 0.64 and sent:
+                # the reply to an earlier request arrives and its handler immediately sends follow-up request(s):
+                # same pattern (polling the same resource) or another one
+                h, e = rng.choice(sent)
+                data = list(e) + rng.choice([[], [b], [rng.randrange(256)]])
+                follow = []
+                for _ in range(rng.choice([1, 1, 1, 2])):
+                    if rng.random() < 0.6:
+                        fh, fe = h, e
+                    else:
+                        fh, fe = rng.choice(hdrs), rng.choice(exps)
+                    follow.append([rid, fh, [rng.randrange(256) for _ in range(rng.randint(0, 3))], fe, rng.choice(tmos)])
+                    sent.append((fh, fe))
+                    rid += 1
+                do(['recvcb', h, data, follow])
             elif x < 0.72:
                 if rng.random() < 0.85:
                     h, e = rng.choice(sent)
@@ -510,7 +525,7 @@ def _nontrivial(case, res):
 
 
 def tie(ctx):
-    cases = corpus_cases()
+    cases = corpus_cases() + callback_cases()
     for _ in range(ctx.scale(1000, 20000)):
         cases.append(gen_case(ctx.rng, ideal=ctx.rng.random() < 0.4))
     ress = [drv.run_events(c['events']) for c in cases]
@@ -565,6 +580,8 @@ def tie(ctx):
         nontriv += 1 if _nontrivial(c, r) else 0
         dist['ideal_timing' if c.get('ideal') else 'racy_timing'] += 1
         dist['events'] += len(r['expanded'])
+        dist['packets_whose_handler_sends_requests'] = dist.get('packets_whose_handler_sends_requests', 0) + \
+            sum(1 for e in c['events'] if e[0] == 'recvcb')
         dist['timers'] += r['ntimers']
         dist['transmissions'] += len(r['out'])
         for e in r['expanded']:
@@ -573,7 +590,8 @@ def tie(ctx):
         'evaluations': len(cases),
         'distinct_nontrivial': nontriv,
         'rule': 'a case = list of events (send with pattern/timeout, recv, open(needs_resending), close, link error, setnr, '
-                'time steps, timer expire/run incl. runs of timers cancelled after expiring); non-trivial: a timer '
+                'time steps, timer expire/run incl. runs of timers cancelled after expiring, packets whose port callback sends '
+                'follow-up requests from inside the real dispatch); non-trivial: a timer '
                 'retransmitted or >= 2 timers existed, and an answer/close/link error occurred; compared: every request '
                 'transmission (session, request, virtual time), raised sends, final deadline of every timer and final status of '
                 'every timer that is the pending one of its pattern (the status of stale timers is unobservable: theorem '
@@ -599,10 +617,23 @@ def check_case(case):
     link, sess, nr, now = False, -1, True, 0
     reqs = {}           # rid -> dict
     pending = {}        # pattern(tuple) -> [rids sharing the pattern, newest last]
+    flat = []
     for i, e in enumerate(events):
+        if e[0] == 'recvcb':
+            # the packet can only answer what was sent BEFORE it arrived; what its handler sends comes after
+            flat.append((i, ['recv', e[1], e[2], 'cb']))
+            flat += [(i, ['send'] + list(f) + ['cb']) for f in e[3]]
+        else:
+            flat.append((i, e))
+    cb_ok = False
+    for i, e in flat:
         k = e[0]
+        if k == 'send' and len(e) > 6 and not cb_ok:
+            continue                    # no link: the packet never arrived, its handler did not run
+        if k == 'recv' and len(e) > 3:
+            cb_ok = link
         if k == 'send':
-            _, rid, hdr, data, exp, tmo = e
+            _, rid, hdr, data, exp, tmo = e[:6]
             q = {'sess': sess if link else None, 't0': now, 'T': 200 if tmo is None else tmo, 'ev': i, 'retry': False,
                  'mand_end': None, 'stop_ev': None, 'sup_t': None, 'raised': len(data) > 30}
             reqs[rid] = q
@@ -679,7 +710,7 @@ def check_case(case):
             late = [t for t in txs if t['ev'] > q['stop_ev']]
             if late:
                 why = events[q['stop_ev']][0]
-                return fail('retransmitted_after_answer' if why == 'recv' else 'retransmitted_after_link_closed',
+                return fail('retransmitted_after_answer' if why in ('recv', 'recvcb') else 'retransmitted_after_link_closed',
                             'request %d stopped being pending at event %d (%s) and is transmitted again at t=%d (event %d)'
                             % (rid, q['stop_ev'], why, late[0]['t'], late[0]['ev']), observed=late)
         # E. with ideal timers: exactly at t0 + k*T while pending
@@ -736,6 +767,33 @@ def enum_cases(depth):
         yield {'events': evs, 'ideal': False}
 
 
+def callback_cases():
+    """Requests issued from inside the handler of a reply (ideal timing): follow-up with the same / another pattern, lost
+    k times and then answered or never answered, chains of polls."""
+    out = []
+    P = [0x90, [1]]
+    for same in (True, False):
+        for k in (1, 3, 8):
+            for tmo in (None, 100, 50):
+                T = 200 if tmo is None else tmo
+                fp = P if same else [0x91, [2, 3]]
+                evs = [['open', True], ['send', 0, P[0], [5], P[1], tmo], ['advfire', 30],
+                       ['recvcb', P[0], P[1] + [9], [[1, fp[0], [6], fp[1], tmo]]], ['advfire', k * T + T // 2],
+                       ['recv', fp[0], fp[1] + [4]], ['advfire', 3 * T]]
+                out.append({'events': evs, 'ideal': True})
+    # a poll loop: every reply triggers the next identical request; the third one is lost twice
+    evs = [['open', True], ['send', 0, 0x90, [1], [7], 100], ['advfire', 20]]
+    for n in range(1, 4):
+        evs += [['recvcb', 0x90, [7, n], [[n, 0x90, [1], [7], 100]]], ['advfire', 20]]
+    evs += [['advfire', 230], ['recv', 0x90, [7, 9]], ['advfire', 300]]
+    out.append({'events': evs, 'ideal': True})
+    # two follow-ups from one handler: same pattern twice (the later supersedes) and a longer pattern
+    out.append({'events': [['open', True], ['send', 0, 0x90, [1], [7], None], ['recvcb', 0x90, [7, 1],
+                           [[1, 0x90, [2], [7], None], [2, 0x90, [3], [7, 8], 100], [3, 0x90, [4], [7], 50]]],
+                           ['advfire', 420], ['recv', 0x90, [7, 8, 1]], ['advfire', 300]], 'ideal': True})
+    return out
+
+
 def oracle(ctx, deep=False):
     fails, seen = check_drivers(), set()
     n_hist = 0
@@ -745,7 +803,7 @@ def oracle(ctx, deep=False):
         if f and f['class'] not in {x['class'] for x in fails}:
             # shortest failing history first (enumeration is by length): no further shrinking needed
             fails.append(f)
-    cases = corpus_cases() + list(enum_cases(ctx.scale(3, 5)))
+    cases = corpus_cases() + callback_cases() + list(enum_cases(ctx.scale(3, 5)))
     for _ in range(ctx.scale(4000, 80000) * (3 if deep else 1)):
         cases.append(gen_case(ctx.rng, ideal=ctx.rng.random() < 0.6))
     for c in cases:
